@@ -175,7 +175,7 @@ PROPS = {
     ),
     "C14": dict(
         kind="ext", pkg="./c14", level="exploration", engine="valgen",
-        extra_builds={"hash": dict(kind="inpkg", pkg="./core/consensus/qbft", overlay=[("c14hash", "core/consensus/qbft")])},
+        extra_builds={"hash": dict(kind="inpkg", pkg="./core/consensus/qbft", overlay=[("c14hash", "core/consensus/qbft")], stamp=["memnet", "fakebn", "valgen"])},
         technique="property-based round-trip and structural-mutation testing (rapid) over generated values of every core type and fork; totality oracle = no panic in any operation the receive / decide / store / re-encode paths apply to a decoded value; determinism checked against the consensus package's own hash",
         level_text="Round trips through JSON, SSZ and the protobuf set converters for every core data type and fork version (content, signing root, signature, share index, clone equality and disjointness, deterministic bytes, order-independent consensus hash); "
                    "structurally mutated / truncated / spliced / type-confused / arbitrary encodings are pushed through decode and every later operation of the real receive and decide paths, where any panic is a crash of the process.",
@@ -183,10 +183,10 @@ PROPS = {
                    "native coverage-guided fuzzing (FuzzC14Decode, byte level, corpus seeded with every valid encoding) only in the thorough tier; it cannot be pinned to VERIF_SEED, a crasher is saved as the replay file.",
         runs={
             "quick": [dict(test="TestC14RoundTrip", checks=500, shards=2), dict(test="TestC14Mutations", checks=1300, shards=5, shrinktime="10s"),
-                      dict(test="TestC14Regression|TestC14RegressionLegacyAttestation", mode="plain"), dict(test="TestC14ConsensusHashDeterministic", checks=400, bin="hash"), dict(test="TestC14ConsensusWireTotality", checks=3000, bin="hash")],
+                      dict(test="TestC14Regression|TestC14RegressionLegacyAttestation", mode="plain"), dict(test="TestC14ConsensusHashDeterministic", checks=400, bin="hash"), dict(test="TestC14ConsensusWireTotality", checks=3000, bin="hash"), dict(test="TestC14DecidedValueTotality", checks=250, bin="hash", shards=2)],
             "thorough": [dict(test="TestC14RoundTrip", checks=20000, shards=4, timeout=3000), dict(test="TestC14Mutations", checks=150000, shards=8, timeout=3000),
                          dict(test="FuzzC14Decode", mode="fuzz", fuzztime="300s", parallel=6, timeout=900),
-                         dict(test="TestC14Regression|TestC14RegressionLegacyAttestation", mode="plain"), dict(test="TestC14ConsensusHashDeterministic", checks=20000, bin="hash", timeout=3000), dict(test="TestC14ConsensusWireTotality", checks=200000, bin="hash", timeout=3000)],
+                         dict(test="TestC14Regression|TestC14RegressionLegacyAttestation", mode="plain"), dict(test="TestC14ConsensusHashDeterministic", checks=20000, bin="hash", timeout=3000), dict(test="TestC14ConsensusWireTotality", checks=200000, bin="hash", timeout=3000), dict(test="TestC14DecidedValueTotality", checks=8000, bin="hash", shards=4, timeout=3000)],
         },
     ),
     "C20": dict(
